@@ -19,6 +19,9 @@ func genSrvCfg(r *Rand, c *Case, tier string) {
 	c.Cfg["maxpend"] = int64(r.Pick(0, 1, 2, 8, 64))
 	c.Cfg["cap"] = int64(r.Pick(0, 0, 24, 300))
 	c.Cfg["nconn"] = int64(r.Pick(1, 1, 2, 3))
+	// the implementation may provide the optional request hooks (SrvReqProcessOps), which then call Process /
+	// PostProcess themselves as the interface asks
+	c.Cfg["prochook"] = int64(r.Pick(0, 0, 1))
 }
 
 func effMsize(c *Case) int {
